@@ -226,8 +226,15 @@ def extract_unit(repo, unit_dir, out_path, variant=None):
     directives (used for canaries)."""
     spec = json.load(open(os.path.join(unit_dir, 'unit.json')))
     vx_dir = os.path.dirname(os.path.abspath(__file__))
-    cfile = os.path.join(unit_dir, spec['contracts'])
-    contracts = parse_contracts(cfile)
+    cfiles = spec['contracts'] if isinstance(spec['contracts'], list) else [spec['contracts']]
+    cfiles = [os.path.normpath(os.path.join(unit_dir, c)) for c in cfiles]
+    cfile = cfiles[-1]
+    contracts = {}
+    cfile_of = {}
+    for cf in cfiles:
+        for fnk, dirs in parse_contracts(cf).items():
+            contracts[fnk] = dirs
+            cfile_of[fnk] = cf
     log = []
     used_fns = set()
     src_cache = {}
@@ -283,6 +290,27 @@ def extract_unit(repo, unit_dir, out_path, variant=None):
         for ha, hb, h in hspans:
             segs.replace(ha - a, hb - a, '', 'rewrite', 'R1 hoisted %s %s' % (h['kind'], h['name']))
             log.append({'rule': 'R1', 'item': it['name'], 'hoisted': '%s %s' % (h['kind'], h['name'])})
+        # R8: tail abstraction -- keep the function up to and including an anchor line, replace the rest of the body
+        ta = it.get('tail_after')
+        if ta:
+            text = segs.text()
+            m2 = rl.code_mask(text)
+            _, ob2, cb2 = _fn_header(text, m2, it['name'])
+            rx = re.compile(ta['regex'])
+            pos = ob2 + 1
+            hits = []
+            for line in text[ob2 + 1:cb2].split('\n'):
+                if line.strip() and rx.search(line):
+                    hits.append(pos + len(line))
+                pos += len(line) + 1
+            kk = ta.get('occurrence', 1)
+            if len(hits) < kk:
+                raise LostAnchor('fn %s: R8 anchor /%s/ occurrence %d not found' % (it['name'], ta['regex'], kk))
+            cut = hits[kk - 1]
+            dropped = text[cut:cb2]
+            segs.replace(cut, cb2, '\n' + ta['replacement'] + '\n', 'rewrite', 'R8 tail abstraction')
+            log.append({'rule': 'R8 tail abstraction: body after the anchor line replaced by an opaque call (arbitrary result)', 'item': it['name'],
+                        'anchor': ta['regex'], 'dropped_lines': dropped.count('\n')})
         # rewrites (single line, regex)
         for rw in spec.get('rewrites', []):
             if 'only' in rw and it['name'] not in rw['only']:
@@ -305,7 +333,7 @@ def extract_unit(repo, unit_dir, out_path, variant=None):
                 dirs = dirs + [list(variant['directive']) + [0]]
             if variant and variant.get('drop') and variant.get('fn') == fn_key:
                 dirs = [d for d in dirs if not variant['drop'](d)]
-            nloops = splice(segs, fn_key, dirs, cfile)
+            nloops = splice(segs, fn_key, dirs, cfile_of.get(fn_key, cfile))
             used_fns.add(fn_key)
         pieces.append((it, segs, rel, fn_key, (a, b)))
     for rw in spec.get('rewrites', []):
@@ -335,9 +363,11 @@ def extract_unit(repo, unit_dir, out_path, variant=None):
         for i, l in enumerate(open(pth).read().rstrip('\n').split('\n'), 1):
             out_lines.append(l)
             origin.append({'kind': 'prelude', 'file': 'vx/prelude/' + p, 'line': i})
-    lem = spec.get('lemmas')
-    if lem:
-        pth = os.path.join(unit_dir, lem)
+    lems = spec.get('lemmas') or []
+    if not isinstance(lems, list):
+        lems = [lems]
+    for lem in lems:
+        pth = os.path.normpath(os.path.join(unit_dir, lem))
         for i, l in enumerate(open(pth).read().rstrip('\n').split('\n'), 1):
             out_lines.append(l)
             origin.append({'kind': 'lemmas', 'file': os.path.relpath(pth, os.path.dirname(vx_dir)), 'line': i})
@@ -384,6 +414,11 @@ def extract_unit(repo, unit_dir, out_path, variant=None):
                                       '%s:%s %s (repository)' % (rel, it['kind'], it['name']),
                                       'verified text', lineterm='', n=1))
         diffs.append('\n'.join(d))
+    for p in spec.get('prelude_after_items', []):
+        pth = os.path.join(vx_dir, 'prelude', p)
+        for i, l in enumerate(open(pth).read().rstrip('\n').split('\n'), 1):
+            out_lines.append(l)
+            origin.append({'kind': 'prelude', 'file': 'vx/prelude/' + p, 'line': i})
     emit('} // verus!', {'kind': 'gen'})
     emit('fn main() {}', {'kind': 'gen'})
     os.makedirs(os.path.dirname(out_path), exist_ok=True)
